@@ -78,6 +78,64 @@ func genC12(r *Rng, e *Emitter, n int) {
 		}
 		e.tally("exhaustive-4x4")
 	}
+	// a long segment and a second one that starts (or ends) at a lattice point adjacent to it —
+	// orientation determinant +-1, +-2 — and properly crosses it or just misses it
+	for i := 0; i < n/6; i++ {
+		bits := 3 + r.Intn(18)
+		ux, uy, vx, vy := r.unimodular(bits)
+		if r.chance(1, 2) {
+			ux = -ux
+			vx = -vx
+		}
+		if r.chance(1, 2) {
+			uy = -uy
+			vy = -vy
+		}
+		ox, oy := int64(r.Intn(1<<19)), int64(r.Intn(1<<19))
+		m := int64(1 + r.Intn(2))
+		ax, ay := ox, oy
+		bx, by := ox+ux, oy+uy
+		cx, cy := ox+m*vx, oy+m*vy // next to the carrier, somewhere along the segment
+		if r.chance(1, 3) {
+			cx, cy = cx+ux/2, cy+uy/2
+		}
+		// the far end: on the other side (crossing), on the same side (miss), or on the carrier
+		var dx, dy int64
+		switch r.Intn(4) {
+		case 3: // a generic direction across the long segment: a well-conditioned crossing next to c
+			wx, wy := int64(r.Intn(1<<19))-(1<<18), int64(r.Intn(1<<19))-(1<<18)
+			side := ux*(cy-ay) - uy*(cx-ax)
+			dw := ux*wy - uy*wx
+			if (side > 0) == (dw > 0) {
+				wx, wy = -wx, -wy
+			}
+			dx, dy = cx+wx, cy+wy
+		case 0:
+			dx, dy = cx-int64(2+r.Intn(6))*m*vx+int64(r.Intn(9)-4), cy-int64(2+r.Intn(6))*m*vy+int64(r.Intn(9)-4)
+		case 1:
+			dx, dy = cx+m*vx+int64(r.Intn(9)-4), cy+m*vy+int64(r.Intn(9)-4)
+		default:
+			dx, dy = cx-m*vx, cy-m*vy
+		}
+		a := geom.Coord{float64(ax), float64(ay)}
+		b := geom.Coord{float64(bx), float64(by)}
+		c := geom.Coord{float64(cx), float64(cy)}
+		d := geom.Coord{float64(dx), float64(dy)}
+		if (ax == bx && ay == by) || (cx == dx && cy == dy) {
+			continue
+		}
+		if r.chance(1, 2) {
+			a, b = b, a
+		}
+		if r.chance(1, 2) {
+			c, d = d, c
+		}
+		if r.chance(1, 2) {
+			a, b, c, d = c, d, a, b
+		}
+		e.tally("config=unimodular")
+		emitSeg(e, a, b, c, d)
+	}
 	grids := []int{4, 8, 64, 1 << 20}
 	for i := 0; i < n; i++ {
 		g := grids[r.Intn(len(grids))]
